@@ -312,6 +312,16 @@ def g1_captured_state(ctx: Ctx):
     ev = ctx.fn(BYTE, 'BytecodeInterpreter.eval')
     loops = [s for s in walk_no_nested(ev) if isinstance(s, ast.For) and norm(s.iter) == 'func.ast.free_vars']
     refreshed = False
+    # the container kinds a captured value can be once converted: the `case` arms of to_value that rebuild
+    tv = repo.func('fpy2/interpret/value.py', 'to_value')
+    kinds: set[str] = set()
+    for m in [s for s in walk_no_nested(tv) if isinstance(s, ast.Match)]:
+        for c in m.cases:
+            body = ' '.join(norm(s) for s in c.body)
+            if 'to_value(x) for x in arg' in body:
+                kinds |= {dotted(p.cls) or '' for p in ast.walk(c.pattern) if isinstance(p, ast.MatchClass)}
+    if not kinds:
+        raise ShapeError('to_value: no container arm found')
     for lp in loops:
         tt = norm(lp, 4000)
         refreshed = 'fn.__globals__[name] = to_value(func.env[name])' in tt
@@ -319,6 +329,18 @@ def g1_captured_state(ctx: Ctx):
         # must not be conditional on `convert` or on a cache miss
         gs = [norm(g) for g, arm in guards_of(ev, lp, parents)]
         refreshed = refreshed and not any('convert' in g or 'func_cache' in g for g in gs)
+        # inside the loop the refresh is unconditional, or guarded by an isinstance test that names every container kind
+        stores = [s for s in ast.walk(lp) if isinstance(s, ast.Assign) and norm(s.targets[0]) == 'fn.__globals__[name]']
+        for st in stores:
+            inner = [g for g, arm in guards_of(lp, st, parent_map(lp))]
+            for g in inner:
+                named: set[str] = set()
+                if isinstance(g, ast.Call) and call_name(g) == 'isinstance' and len(g.args) == 2:
+                    named = {n.id for n in ast.walk(g.args[1]) if isinstance(n, ast.Name)}
+                covered = kinds <= named
+                ctx.check(covered, BYTE, g, 'BytecodeInterpreter.eval', f'the per-call refresh covers every container kind a captured value can be ({sorted(kinds)})',
+                          f'guard `{norm(g)}` leaves {sorted(kinds - named)} unrefreshed: a store into a list held by a captured {sorted(kinds - named)[0] if kinds - named else "?"} persists across calls')
+                refreshed = refreshed and covered
     # alternative: the front end rejects stores into captured variables
     sc = repo.func('fpy2/analysis/syntax_check.py', 'SyntaxCheckInstance._visit_indexed_assign')
     rejects = any(isinstance(s, ast.If) and 'free_vars' in norm(s.test) and any(isinstance(b, ast.Raise) for b in s.body) for s in walk_no_nested(sc))
@@ -370,6 +392,8 @@ RULES = [
 from ..selftest import Mutant  # noqa: E402
 
 MUTANTS = [
+    Mutant('captured-tuples-not-refreshed', BYTE, "            if isinstance(fn.__globals__.get(name), list | tuple):", "            if isinstance(fn.__globals__.get(name), list):", 'C18.G1',
+           'seeded change C18a: a store into a list held by a captured tuple survives the call'),
     Mutant('active-context-in-global', BYTE, "        ctx = self._func_ctx(func.ast, ctx)\n        if convert:", "        global _ACTIVE_CTX\n        _ACTIVE_CTX = ctx = self._func_ctx(func.ast, ctx)\n        if convert:", 'C18.E1'),
     Mutant('engine-registered-lazily', 'fpy2/ops.py', "def _normalize(x: Float | Fraction, ctx: Context, args: tuple[Float | Fraction, ...] = ()):\n", "def _normalize(x: Float | Fraction, ctx: Context, args: tuple[Float | Fraction, ...] = ()):\n    from .number.engine import register_engine, RealEngine\n    register_engine(RealEngine.instance())\n", 'C18.E1'),
     Mutant('memo-table', 'fpy2/number/context/context.py', "    def _round_prepare(self, x) -> RealFloat | Float:", "    _memo: dict = {}\n\n    def _round_prepare(self, x) -> RealFloat | Float:\n        self._last = x", 'C18.E1b'),
